@@ -1,19 +1,89 @@
-"""Per-property manifest entries (only properties whose check exists are listed in CHECKS)."""
+"""Per-property manifest entries. Only properties listed in READY are claimed."""
 NOTE_COMMON = ("Trusted base: JAX/XLA CPU semantics, NumPy, the explorer (mc/engine.py) and the monitor code. "
                "Bounds: per-configuration reset-key window PRNGKey(0..K-1); tiny configurations are explored to closure, "
-               "default-size ones to the depth listed in the evidence (closed=false). ")
-CHECKS = {
-    "C01": dict(
+               "default-size ones to the depth / deviation bound listed in the evidence (closed=false). ")
+NOTE_REF = (NOTE_COMMON + "The oracle is an independent NumPy statement of the documented rules (mc/ref/<family>.py); "
+            "random in-step outcomes are taken from the implementation and checked for admissibility. ")
+NOTE_ENUM = ("Trusted base: NumPy reference models in the check module, Python itself. Bounds: the finite alphabets and "
+             "size/depth limits listed in the evidence; every member of the bounded space is enumerated. ")
+ALL = dict(
+    C01=dict(
         text="Every reset and every edge (all in-spec actions, legal or not, terminal steps included) of the explored transition graphs of all 23 environments is checked against the declared observation/reward/discount specs by an independent NumPy membership test; generate_value() is a member and is stepped. Exhaustive within the stated bounds, which is what a per-input property over all action sequences needs and a sampled rollout cannot give.",
-        design_ref="§4 C01", technique="explicit-state BFS over the real env.step with full action alphabet + spec-membership monitor; step-counter and position injection for boundary states",
+        design_ref="§4 C01", technique="explicit-state BFS over the real env.step with the full action alphabet + spec-membership monitor; step-counter and player-position injection for boundary states",
         note=NOTE_COMMON + "Long time limits are reached by injecting the step counter (models *@horizon)."),
-    "C03": dict(
+    C02=dict(
+        text="For every environment an explored transition set is re-executed under jit, vmap (batch 1,2,7), lax.scan (prefix lengths 1,2,5,full) and plain eager calls and must agree leaf by leaf; all call histories up to length 2-3 over {reset(k0),reset(k1),step(s0,a0),step(s0,a1),step(s1,a0)} on one object must equal the same calls on a fresh object; arguments are checked for identity and value after every eager call; jaxpr effects must be empty.",
+        design_ref="§4 C02", technique="explicit-state exploration + exhaustive call-history enumeration, cross-checked across program transformations",
+        note=NOTE_COMMON + "disable_jit, pmap, gradients and other backends are out of scope; float leaves compared with rtol 1e-5."),
+    C03=dict(
         text="Every reset, every edge and two further steps after every terminal state of the explored graphs are checked for the FIRST/MID/LAST protocol and reward/discount sanity; multi-agent shapes included. Exhaustive over all action sequences of the tiny configurations.",
         design_ref="§4 C03", technique="explicit-state BFS with post-terminal expansion + protocol monitor",
         note=NOTE_COMMON + "LBF truncation accepted only at step_count >= time_limit with food left."),
-    "C11": dict(
+    C04=dict(
+        text="For the 21 masked environments, every non-terminal state of the explored graphs (tiny, non-square, multi-agent, injected instance families; default sizes in mode B) is compared entry by entry with the legal set computed by an independent statement of the rules, and the environment's own reaction to every action is compared with the mask.",
+        design_ref="§4 C04", technique="explicit-state BFS over all actions + reference legality oracle on every state and mask entry",
+        note=NOTE_REF + "MMST legality is stated for unfinished agents only; PacMan's no-op entry is excluded; MultiCVRP's alphabet is the mask's index domain."),
+    C05=dict(
+        text="Every (state, illegal action) pair of the explored graphs is checked against the documented effect: terminate-on-invalid environments must end with the documented reward and, where promised, an untouched problem state; ignore-invalid environments must continue with nothing moved, placed, merged, eaten or spawned.",
+        design_ref="§4 C05", technique="explicit-state BFS over all actions; every illegal edge judged by the reference model",
+        note=NOTE_REF),
+    C06=dict(
+        text="All mask-respecting action sequences of the tiny instances (closed graphs) and mode-B episodes of default size are explored for the 11 CO environments; hard constraints are recomputed from raw state arrays after every step and completion-terminated states must encode a complete feasible solution.",
+        design_ref="§4 C06", technique="explicit-state BFS restricted to masked-in actions + constraint monitor",
+        note=NOTE_REF),
+    C07=dict(
+        text="All in-spec action sequences (legal or not) of tiny, non-square and multi-agent configurations of the 11 grid/game environments are explored; physical-consistency invariants are evaluated on every state from which the episode continues and conservation laws on every such edge.",
+        design_ref="§4 C07", technique="explicit-state BFS over all actions + invariant/conservation monitor",
+        note=NOTE_REF),
+    C08=dict(
+        text="On the DAG of all mask-respecting action sequences the accumulated return is stored per state, must be path-independent and must equal the documented objective recomputed in float64 from the terminal state (or rewards must telescope a potential), for both reward functions where offered — which decides return == objective for every path at once and dense == sparse.",
+        design_ref="§4 C08", technique="explicit-state BFS over legal play with per-node return accumulation / edge-local potential telescoping",
+        note=NOTE_REF + "Float tolerance 1e-4 relative."),
+    C09=dict(
+        text="Every explored (state, action) pair of the rule-defined environments is replayed in an independent NumPy model of the rules and compared field by field (successor, reward, termination).",
+        design_ref="§4 C09", technique="explicit-state BFS over all actions + reference step model on every edge",
+        note=NOTE_REF),
+    C10=dict(
+        text="Every shipped generator x a list of size parameters (minimum, odd/even, non-square, default) x the key window PRNGKey(0..K-1) is run through jit(vmap) and every produced instance is validated by a NumPy validator of the advertised invariants (connectivity, solvability, tiling, counts, ranges, key dependence); both Sudoku databases are validated board by board.",
+        design_ref="§4 C10", technique="bounded-exhaustive enumeration of (generator, size, key) with instance validators", engine="enumerator",
+        note=NOTE_ENUM + "2^64 keys cannot be enumerated: the key window is the bound (64 quick / 2048 thorough), plus explicit regression keys."),
+    C11=dict(
         text="For the 12 time-limited environments every action sequence up to the limit is explored for limits 1..12 (and by step-counter injection for long/default limits): an edge leaving step T-1 must be LAST and an earlier LAST needs an independent documented cause; horizon-only environments are closed and their depth compared with the structural bound.",
         design_ref="§4 C11", technique="explicit-state BFS to depth time_limit+1 with explorer-side step numbering; horizon injection",
         note=NOTE_COMMON + "'Other reason' predicates are recomputed from child-state arrays."),
-}
+    C12=dict(
+        text="Every (state, observation) pair of the explored graphs of all 23 environments is compared with the observation recomputed from the state by an independent NumPy observer (fov/sensor windows, EMS selection and normalisation, feature planes, relabelling, copied fields).",
+        design_ref="§4 C12", technique="explicit-state BFS over all actions + reference observer on every state",
+        note=NOTE_REF),
+    C13=dict(
+        text="Product exploration of AutoResetWrapper(env) against the bare env for all 23 environments, both next_obs_in_extras settings, all action sequences crossing several episode boundaries: non-terminal steps must be relayed unchanged, terminal steps must carry the terminal reward/discount/extras with the state and observation of reset(split(terminal key)), reset keys along a path must be pairwise distinct; explored paths are re-run under vmap, scan and eagerly.",
+        design_ref="§4 C13", technique="explicit-state product exploration (wrapper vs bare env) through auto-resets",
+        note=NOTE_COMMON),
+    C14=dict(
+        text="For batch sizes 1-3(4) all joint action vectors over a per-element {continue, end-episode} alphabet are enumerated to depth 3-4 so that every subset of the batch terminates on the same step somewhere (missing termination patterns fail the run); VmapWrapper is compared with per-element execution, VmapAutoResetWrapper with VmapWrapper(AutoResetWrapper), and render is checked to receive element 0.",
+        design_ref="§4 C14", technique="exhaustive enumeration of joint action sequences over staggered batches, differential oracle",
+        note=NOTE_COMMON),
+    C15=dict(
+        text="All operation sequences up to length 4-5 over {reset(), reset(seed), seed(), step(a0), step(a1)} on the gym adapter and up to 5-7 over {reset, step} on the dm_env adapter are run against a pure reference that drives the native API with the documented key schedule; every observation is tested for membership in the converted space/spec; every member of each converted action space is enumerated and validated; MultiToSingleWrapper is explored edge by edge with four aggregator pairs.",
+        design_ref="§4 C15", technique="stateful model checking: exhaustive call-history enumeration on the adapters vs a pure reference model", engine="enumerator",
+        note=NOTE_ENUM + "One adapter object per (configuration, seed) is reset to its constructor state between histories; a subset of histories runs on fresh adapters."),
+    C16=dict(
+        text="A finite universe of specs (shapes, dtypes, scalar/per-element/broadcast bounds, num_values, names, nested trees, plus all specs of the 23 environments) and a value alphabet at / just inside / just outside every bound are enumerated: validate vs a reference membership test, generate_value, replace, == over all ordered pairs per kind vs a reference equivalence, pickling, and membership in converted gym spaces / dm_env specs.",
+        design_ref="§4 C16", technique="bounded-exhaustive input enumeration against a NumPy reference algebra", engine="enumerator",
+        note=NOTE_ENUM + "NaN is outside the value alphabet."),
+    C17=dict(
+        text="Every cube move (sizes 2-5, thorough 2-7) is executed on an all-distinct-sticker cube through env.step and compared with a geometric reference cube; group identities are checked on all moves and all move pairs; the 2x2x2/3x3x3 move graphs are explored breadth-first; the ENTIRE reachable space of the 2x2 and 3x3 sliding puzzles is enumerated through env.step; solved-test, encodings and reset-state solvability are checked over the explored sets and the key window.",
+        design_ref="§4 C17", technique="exhaustive state-space enumeration of the puzzles' move graphs through the real step function vs a geometric reference", engine="enumerator",
+        note=NOTE_ENUM),
+    C18=dict(
+        text="All id strings up to length 5 (6 thorough) over an 11-symbol alphabet are parsed against a reference parser; all register/make call sequences up to length 3 (4) over a 9-operation alphabet are run on the process-global registry against a dict model (saved and restored); all 25 shipped ids are instantiated twice and compared in specs and behaviour.",
+        design_ref="§4 C18", technique="bounded-exhaustive string enumeration + explicit-state exploration of the registry's call histories", engine="enumerator",
+        note=NOTE_ENUM + "Sokoban-v0 is made with ToyGenerator (dataset needs the network)."),
+    C19=dict(
+        text="All tree structures x leaf shapes x dtypes x batch sizes 1-4 (8) x all indices are enumerated for stack/slice/set, including real environment states; the equality helper is checked on all single-leaf perturbations and all ordered pairs of a leaf universe (broadcast traps, near-equal floats, dtype changes).",
+        design_ref="§4 C19", technique="bounded-exhaustive input enumeration against algebraic laws", engine="enumerator",
+        note=NOTE_ENUM + "NaN excluded; value-equal leaves of different dtype count as equal (np.array_equal semantics, as the statement says 'equal shape and equal elements')."),
+)
+READY = ["C01", "C03", "C11", "C15", "C19"]
+CHECKS = {k: ALL[k] for k in READY}
 NOT_APPLICABLE = {}
